@@ -231,99 +231,144 @@ def oracle_single(wl, wi, cur, needle, d, ic, icp, r):
     return None
 
 
+def judge_outcome(wl, wi, cur, needle, d, ic, icp, pos):
+    """The property's clauses for ONE applied search whose visible outcome is
+    the position `pos`: when the position did not change this is either
+    'nothing found' or 'found where we already are' - whichever reading
+    satisfies the property."""
+    cands = [None, pos] if pos == (wi, cur) else [pos]
+    bads = [oracle_single(wl, wi, cur, needle, d, ic, icp, r) for r in cands]
+    return bads[-1] if all(bads) else None
+
+
 def oracle_buffer(case, raw):
+    """Only what the property text states (everything else - that
+    apply_search, get_search_position and _search agree with each other, what a
+    count below 1 does, that count=k is all-or-nothing - is code semantics: it
+    is modelled, proved about the model and tied by CORRESPONDENCE, where a
+    difference is searched for a property-failing input in the normal way):
+      * count 1, non-empty needle: _search and apply_search land on a real,
+        nearest occurrence / nothing skipped / complete (oracle_single);
+      * any count >= 1: a landing position is inside the working lines and
+        the needle really occurs there; no working line's text changes;
+      * document_for_search (the preview) is the document apply_search with
+        include_current_position moves to, and computing it moves nothing."""
     _, wl_s, wi, cur, nd_s, ic = case
     wl = [unS(x) for x in wl_s]
     needle = unS(nd_s)
+    n = len(wl)
     for (d, icp, c) in QUERIES:
+        if c < 1:
+            continue
         r = raw[(d, icp, c)]
         tag = {"dir": d, "icp": icp, "count": c}
         if isinstance(r, str):
             return ("_search raised (%s) for count %d" % (r, c), dict(tag, family="raise"))
-        if len(needle) > 0 and c == 1:
+        a = raw.get(("apply", d, icp, c))
+        if a is None:
+            return ("apply_search raised for count %d" % c, dict(tag, family="raise"))
+        if a[2] != wl:
+            return ("apply_search changed the text of a working line", dict(tag, family="apply-text"))
+        if len(needle) == 0:
+            continue
+        if c == 1:
             bad = oracle_single(wl, wi, cur, needle, d, ic, icp, r)
             if bad:
                 return (bad[0], dict(tag, family=bad[1]))
-        # count = k  ==  k successive single searches
-        # (a count below 1 is no search at all: the empty chain finds nothing)
-        chain = raw[("chain", d, icp)]
-        want = None if (c < 1 or len(chain) < c or chain[c - 1] is None) else chain[c - 1]
-        if r != want:
-            return (("count=%d search differs from %d successive single searches (%r vs %r)" % (c, c, r, want)) if c >= 1 else
-                    ("count=%d (below 1) must not search, found %r" % (c, r)),
-                    dict(tag, family="count"))
-        # the three public entry points around _search
-        a = raw.get(("apply", d, icp, c))
-        if a is None:
-            return ("apply_search raised", dict(tag, family="raise"))
-        if a[2] != wl:
-            return ("apply_search changed the text of a working line", dict(tag, family="apply-text"))
-        if (a[0], a[1]) != ((wi, cur) if r is None else r):
-            return ("apply_search did not move to the position _search found (or moved although nothing was found)",
-                    dict(tag, family="apply"))
-        g = raw.get(("gsp", d, icp, c))
-        # the landing cursor only when the landing line is the current one: a match in
-        # another working line has no position in the current text
-        want_g = r[1] if (r is not None and r[0] == wi) else cur
-        if g is None or g[0] != want_g or (g[1], g[2]) != (wi, cur):
-            return ("get_search_position is not the landing cursor in the current line (or the current cursor when the match "
-                    "is in another line / absent), or it moved the buffer", dict(tag, family="gsp"))
+            bad = judge_outcome(wl, wi, cur, needle, d, ic, icp, (a[0], a[1]))
+            if bad:
+                return ("apply_search: " + bad[0], dict(tag, family=bad[1], api="apply_search"))
+        else:
+            apos = None if (a[0], a[1]) == (wi, cur) else (a[0], a[1])
+            for nm, pos in (("_search", r), ("apply_search", apos)):
+                if pos is None:
+                    continue
+                if not (0 <= pos[0] < n) or not (0 <= pos[1] <= len(wl[pos[0]])):
+                    return ("%s(count=%d) answered a position outside the working lines" % (nm, c), dict(tag, family="range"))
+                if not occ(ic, needle, wl[pos[0]], pos[1]):
+                    return ("%s(count=%d) moved to a position where the needle does not occur" % (nm, c), dict(tag, family="real"))
+            # a repeat count k means k successive searches: when k successive single
+            # searches (the implementation's own, each link judged against the property
+            # right here) all succeed, the count-k search lands where the k-th lands.
+            # When fewer succeed the text demands nothing definite: staying put and any
+            # partial progress along the chain are both accepted (the code is all-or-nothing;
+            # that is modelled and tied by correspondence).
+            chain = raw[("chain", d, icp)][:c]
+            w0, c0 = wi, cur
+            for link in chain:
+                bad = oracle_single(wl, w0, c0, needle, d, ic, icp, link)
+                if bad:
+                    break       # a wrong single search is reported by its own count-1 case
+                if link is None:
+                    break
+                w0, c0 = link
+            else:
+                bad = None
+            if not bad:
+                full = len(chain) == c and all(x is not None for x in chain)
+                for nm, pos in (("_search", r), ("apply_search", apos)):
+                    if nm == "apply_search" and pos is None and r is not None and tuple(r) == (wi, cur):
+                        continue        # landed on the starting position: indistinguishable from "unchanged"
+                    if full and (pos is None or tuple(pos) != tuple(chain[c - 1])) and not (
+                            nm == "apply_search" and pos is None and tuple(chain[c - 1]) == (wi, cur)):
+                        return ("%s(count=%d) did not land where %d successive single searches land (%r vs %r)" % (
+                            nm, c, c, pos, chain[c - 1]), dict(tag, family="count"))
+                    if not full and pos is not None and tuple(pos) not in [tuple(x) for x in chain if x is not None]:
+                        return ("%s(count=%d) landed at %r, which is not on the chain of successive single searches %r" % (
+                            nm, c, pos, chain), dict(tag, family="count"))
     for d in (0, 1):
-        r = raw[(d, 1, 1)]
+        a = raw.get(("apply", d, 1, 1))
         if isinstance(raw[("dfs", d)], str):
             return ("document_for_search raised", {"dir": d, "family": "raise"})
+        if a is None:
+            continue
         t, c, bw, bc = raw[("dfs", d)]
-        want = (wl[wi], cur) if (r is None or isinstance(r, str)) else (wl[r[0]], r[1])
-        if (t, c) != want or (bw, bc) != (wi, cur):
-            return ("document_for_search is not the document apply_search(include_current_position=True) moves to",
+        if (t, c) != (wl[a[0]], a[1]) or (bw, bc) != (wi, cur):
+            return ("document_for_search is not the document apply_search(include_current_position=True) moves to, or computing it moved the buffer",
                     {"dir": d, "family": "preview"})
     return None
 
 
 def oracle_document(case, res):
-    """Document.find / find_backwards: the count-th match of the leftmost
-    non-overlapping scan (forward: from the cursor resp. just after it;
-    backward: from the cursor towards the start, matches wholly before it)."""
+    """Document.find / find_backwards, what the property states:
+    count 1, non-empty needle: the nearest occurrence after (at, with
+    include_current_position) the cursor resp. wholly before it, None iff there
+    is none.  count >= 2: a returned offset is a real occurrence on the right
+    side of the cursor (whether the count-th is counted with or without
+    overlaps - re.finditer counts without - is code semantics: modelled, proved
+    as C16_find_*_nth and tied by correspondence only)."""
     _, t_s, cur, sub_s, ic, count = case
     t, sub = unS(t_s), unS(sub_s)
     L = len(sub)
-    step = max(1, L)
+    if count < 1 or not sub:
+        return None
     ps = occs(ic, sub, t)
-    for k, (lo, name) in enumerate(((cur + 1, "find"), (cur, "find(include_current_position)"))):
-        want = []
-        if count >= 1:
-            n, p = 0, None
-            while True:
-                ahead = [q for q in ps if q >= lo]
-                if not ahead:
-                    p = None
-                    break
-                p = ahead[0]
-                n += 1
-                if n == count:
-                    break
-                lo = p + step
-            want = [] if p is None else [p - cur]
-        if res[k] != want:
-            return ("Document.%s(count=%d): not the count-th non-overlapping occurrence after the cursor" % (name, count),
-                    {"family": "doc-find", "count": count if count <= 1 else 2})
-    want = []
-    if count >= 1:
-        hi, n, p = cur, 0, None
-        while True:
-            before = [q for q in ps if q + L <= hi]
-            if not before:
-                p = None
-                break
-            p = before[-1]
-            n += 1
-            if n == count:
-                break
-            hi = p + L - step
-        want = [] if p is None else [p - cur]
-    if res[2] != want:
-        return ("Document.find_backwards(count=%d): not the count-th non-overlapping occurrence wholly before the cursor" % count,
-                {"family": "doc-find-backwards", "count": count if count <= 1 else 2})
+    sides = ((lambda q: q >= cur + 1, "find"), (lambda q: q >= cur, "find(include_current_position)"),
+             (lambda q: q + L <= cur, "find_backwards"))
+    for k, (ok, name) in enumerate(sides):
+        side = [q for q in ps if ok(q)]
+        fam = "doc-find-backwards" if k == 2 else "doc-find"
+        if count == 1:
+            want = [] if not side else [(side[-1] if k == 2 else side[0]) - cur]
+            if res[k] != want:
+                return ("Document.%s: not the nearest occurrence on that side of the cursor" % name, {"family": fam, "count": 1})
+        else:
+            # the count-th occurrence on that side, counted with overlaps (every
+            # occurrence) or without (re.finditer, the code): both readings are accepted
+            order = side[::-1] if k == 2 else side
+            acc = set()
+            acc.add(order[count - 1] - cur if len(order) >= count else None)
+            nov, last = [], None
+            for q in order:
+                if last is None or (q >= last + max(1, L) if k != 2 else q + max(1, L) <= last):
+                    nov.append(q)
+                    last = q
+            acc.add(nov[count - 1] - cur if len(nov) >= count else None)
+            got = res[k][0] if res[k] else None
+            if got not in acc:
+                return ("Document.%s(count=%d) answered %r: neither the count-th occurrence on that side of the cursor "
+                        "counted with overlaps nor without (%r)" % (name, count, got, sorted(acc, key=lambda x: (x is None, x))),
+                        {"family": fam, "count": 2})
     return None
 
 
@@ -658,6 +703,7 @@ def impl_session_case(sess, case, patience=5):
 
 def oracle_session(case, trace):
     _, mode, wl_s, wi0, cur0, ic, keys = case
+    nav_since_start = False       # C-r/C-s/Up/Down pressed while searching, since this search was started
     for prev, k, obs in trace:
         kn = KEYNAMES[k[0]]
         if isinstance(obs, str):
@@ -674,6 +720,7 @@ def oracle_session(case, trace):
                 return ("typing %s in the search field moved the real cursor or changed the text" % kn,
                         {"key": kn, "family": "typing"})
         elif not psearch and k[0] in (1, 2, 10, 11) and (mode or k[0] in (1, 2)):
+            nav_since_start = False
             if not main_same:
                 return ("starting a search moved the real cursor", {"key": kn, "family": "start"})
         elif psearch and k[0] in (4, 7):
@@ -684,15 +731,30 @@ def oracle_session(case, trace):
                 continue        # empty needle: outside the property
             want = (unS(ppt), fix_start(mode, unS(ppt), ppc))
             if not search and (unS(wl_[w]), c) != want:
-                fam = "accept-empty-field-remembered-text" if not pfield else "preview"
+                fam = "preview"
+                if not pfield:
+                    # finding C16-F1 is exactly: nothing typed, and Enter lands where a correct
+                    # search for the REMEMBERED text (stored direction, current position
+                    # included) lands.  Any other landing is a different defect.
+                    bad = oracle_single(lines, pw, pc, unS(psst), psd, ic, 1, (w, c))
+                    if bad:
+                        return ("accept with an empty field and remembered text %r: %s" % (unS(psst), bad[0]),
+                                {"key": "accept", "family": bad[1], "dir": psd})
+                    fam = "accept-empty-field-remembered-text"
                 return ("accepting the search moved to entry %d cursor %d but the display before the key showed %r cursor %d" % (
                     w, c, unS(ppt), ppc), {"key": "accept", "family": fam})
-        elif psearch and k[0] == 5:
-            # abort: the key itself must not move anything (modulo Vi's end-of-line rule)
-            if wl_ != pwl or w != pw or c != fix_start(mode, unS(pwl[pw]), pc):
-                return ("aborting the search moved the real cursor or changed the text", {"key": kn, "family": "abort"})
+        elif psearch and (k[0] == 5 or (mode and k[0] == 6 and not pfield)):
+            # abort.  The property says nothing about abort itself; it does say that typing
+            # alone never moves the real cursor: a search that was started, only typed into
+            # and aborted must leave everything as it was (modulo Vi's end-of-line rule).
+            # Once C-r/C-s/Up/Down moved the cursor during the search, staying there or
+            # going back to the start (the docstring's promise) are both acceptable.
+            if not nav_since_start and (wl_ != pwl or w != pw or c != fix_start(mode, unS(pwl[pw]), pc)):
+                return ("a search that was only typed into and then aborted moved the real cursor or changed the text",
+                        {"key": kn, "family": "abort-after-typing-only"})
         elif (psearch and k[0] in (1, 2, 12, 13)) or (not psearch and k[0] in (8, 9, 19, 20)):
             if psearch:
+                nav_since_start = True
                 d = 1 if k[0] in (1, 12) else 0
                 needle, count = unS(pfield), 1
                 if d != psd and main_same:
@@ -700,9 +762,6 @@ def oracle_session(case, trace):
             elif k[0] in (19, 20):
                 d = 0 if k[0] == 19 else 1
                 needle, count = unS(k[2]), k[1]
-                if unS(sst) != needle or sd != d:
-                    return ("%s did not store the word under the cursor / its direction in the search state" % kn,
-                            {"key": kn, "family": "star-state"})
             else:
                 d = psd if k[0] == 8 else 1 - psd
                 needle, count = unS(psst), k[1]
@@ -1174,6 +1233,11 @@ def main(tier):
         "Non-trivial = some search moved the position. Exhaustive strata are sampled in quick and complete in thorough "
         "(one entry of length <= 3 over %r x every cursor x %d needles x both case modes); distinct by hash of the whole case" % (ALPHA, len(needles())))
     chk.assumptions += [
+        "the oracle demands only the property text (single searches: real/nearest/no-skip/complete for _search and apply_search; "
+        "every count >= 1: a real in-range occurrence, and the landing of k successive single searches when all k succeed; "
+        "Document.find(count): the count-th occurrence counted with or without overlaps; preview = accept; typing / start / typing-only sessions move nothing); "
+        "count=k all-or-nothing, counts below 1, get_search_position, non-overlapping counting in Document.find(count), abort after "
+        "C-r/C-s and the state stored by */# are code semantics: proved about the model, reported through correspondence only",
         "re.finditer(re.escape(s), t, flags) = leftmost non-overlapping literal occurrences, compared per character; "
         "re.IGNORECASE = the per-character relation ceq (a Section variable in every theorem; the executable model uses the table "
         "regenerated from CPython's re for ASCII letters + 19 irregular cased letters, gen/gen_t_c16.py)",
